@@ -129,13 +129,34 @@ def small(a, cap=64):
 
 # -------------------------------------------------------------------- monitors
 
-def mapping_post(ctx, original, args, kwargs, result):
+def _mapping_pre(args, kwargs):
+    """Copy of the removed table as it was handed in (the oracle must not be fooled by a callee that edits it)."""
+    a = dict(zip(('indexes', 'reduced', 'removed', 'sorted'), args))
+    a.update(kwargs)
+    try:
+        return np.array(a['removed'], copy=True)
+    except Exception:
+        return None
+
+
+def mapping_post(ctx, original, args, kwargs, result, removed_before=None):
     names = ('indexes', 'reduced', 'removed', 'sorted')
     a = dict(zip(names, args))
     a.update(kwargs)
     if not all(k in a for k in names[:3]):
         ctx.ood('mapping', 'unexpected-call-shape')
         return
+    if removed_before is not None:
+        try:
+            same = np.array_equal(np.asarray(a['removed']), removed_before)
+        except Exception:
+            same = True
+        if not same:
+            # the table of the reduction was rewritten by the call: every later mapping on this reduction is off
+            ctx.violation('mapping', 'mapping:removed-table-modified',
+                          'rdp.mapping modified the removed table it was given (later calls on the same reduction map to wrong indices)',
+                          before=small(removed_before, 128), after=small(a['removed'], 128))
+        a['removed'] = removed_before
     is_sorted = bool(a.get('sorted', True))
     idx = index_vector(a['indexes'])
     red = index_vector(a['reduced'])
@@ -219,6 +240,7 @@ def removed_post(ctx, original, args, kwargs, result):
 
 
 def setup(ctx, mods):
+    mapping_post.pre = _mapping_pre
     install.monitor(ctx, 'rdp', 'mapping', mapping_post)
     install.monitor(ctx, 'rdp', 'compute_removed_points', removed_post)
     return {'loops': loops.standard(ctx, mods)}
